@@ -44,8 +44,12 @@ impl Arena {
     /// Fill the whole arena with `fill`, copy `content` to the chosen place and return the slice.
     /// The returned offset is the slice's start within the arena.
     pub fn place(&mut self, content: &[u8], place: Place, fill: u8) -> (usize, &mut [u8]) {
-        let cap = self.capacity();
         let len = content.len();
+        if len + 320 > self.capacity() {
+            // a larger arena on demand (the old mapping is left in place; page-aligned bases keep every address residue)
+            *self = Arena::new((len + 320) / PAGE + 1);
+        }
+        let cap = self.capacity();
         assert!(len + 64 <= cap);
         let all = unsafe { std::slice::from_raw_parts_mut(self.base, cap) };
         // only refresh the neighbourhood that can have been touched (whole arena is small anyway)
